@@ -86,8 +86,9 @@ def compile_cmd(src, out, flags=None, cfg=None, includes=(), libs=(), compiler="
 
 
 def build(name, src, flags=None, cfg=None, includes=(), libs=("-lboost_timer", "-ltbb", "-lpthread"),
-          compiler="g++", shim_first=()):
-    """Compile one harness binary against the current $PARMCB_REPO tree. Failure is a harness error."""
+          compiler="g++", shim_first=(), extra_srcs=()):
+    """Compile one harness binary against the current $PARMCB_REPO tree. Failure is a harness error.
+    extra_srcs: further translation units compiled with the same flags and linked in."""
     os.makedirs(os.path.join(BUILD, "bin"), exist_ok=True)
     out = os.path.join(BUILD, "bin", name)
     if not os.path.isabs(src):
@@ -95,6 +96,15 @@ def build(name, src, flags=None, cfg=None, includes=(), libs=("-lboost_timer", "
     cmd, link = compile_cmd(src, out, flags, cfg, includes, libs, compiler, shim_first)
     t0 = time.time()
     p = subprocess.run(cmd, env=_ccache_env(), stdout=subprocess.PIPE, stderr=subprocess.STDOUT, text=True)
+    for i, xs in enumerate(extra_srcs):
+        if p.returncode != 0:
+            break
+        if not os.path.isabs(xs):
+            xs = os.path.join(VERIF, "harness", xs)
+        xcmd, _ = compile_cmd(xs, "%s.x%d" % (out, i), flags, cfg, includes, libs, compiler, shim_first)
+        cmd = xcmd
+        p = subprocess.run(xcmd, env=_ccache_env(), stdout=subprocess.PIPE, stderr=subprocess.STDOUT, text=True)
+        link.insert(link.index(out + ".o") + 1, "%s.x%d.o" % (out, i))
     if p.returncode == 0:
         p = subprocess.run(link, stdout=subprocess.PIPE, stderr=subprocess.STDOUT, text=True)
     if p.returncode != 0:
